@@ -22,6 +22,9 @@ The cast `long (x)` is a parameter `toLong` with the one hypothesis the round tr
 set_option linter.unusedSimpArgs false
 set_option linter.unusedSectionVars false
 set_option linter.unusedVariables false
+set_option linter.unusedTactic false
+set_option linter.unreachableTactic false
+set_option linter.unnecessarySeqFocus false
 namespace ImathVerif.C16
 open ImathVerif ImathVerif.FrustumSpec ImathVerif.FrustumZ
 variable {α : Type} [Field α] [LinearOrder α] [IsStrictOrderedRing α]
@@ -60,6 +63,31 @@ theorem depthToZ_ortho_3_10 (toLong : α → Int) (n f l r t b d : α) :
   have e : zdiffLong 3 10 = 7 := by decide
   simp only [depthToZ_ortho, depthToZTail, depthToZp_ortho_real_body, e]
   norm_num
+
+/-! ## the throwing copy `DepthToZExc` (a separate textual copy of both branches): extracted from the real body the same way.  Whenever it
+returns, it returns what `DepthToZ` returns (same operand of the cast, same tail); it throws `domain_error` exactly when one of its overflow
+guards fires (`|x| < 1 ∧ max · |x| < |numerator|`), never otherwise -/
+theorem DepthToZExc_persp_ok (tmax n f l r t b d : α) (y : α × Int × Int × Int)
+    (h : Gen.Frustum.DepthToZExc_persp_3_10 tmax n f l r t b d = .ok y) : Gen.Frustum.DepthToZ_persp_3_10 n f l r t b d = y := by
+  simp only [Gen.Frustum.DepthToZExc_persp_3_10] at h
+  simp only [Gen.Frustum.DepthToZ_persp_3_10]
+  split_ifs at h <;> first | exact Except.ok.inj h | exact absurd h (by simp)
+theorem DepthToZExc_ortho_ok (tmax n f l r t b d : α) (y : α × Int × Int × Int)
+    (h : Gen.Frustum.DepthToZExc_ortho_3_10 tmax n f l r t b d = .ok y) : Gen.Frustum.DepthToZ_ortho_3_10 n f l r t b d = y := by
+  simp only [Gen.Frustum.DepthToZExc_ortho_3_10] at h
+  simp only [Gen.Frustum.DepthToZ_ortho_3_10]
+  split_ifs at h <;> first | exact Except.ok.inj h | exact absurd h (by simp)
+theorem DepthToZExc_persp_error (tmax n f l r t b d : α) (k : Exc) :
+    Gen.Frustum.DepthToZExc_persp_3_10 tmax n f l r t b d = .error k ↔
+      k = Exc.domainError ∧
+        ((|d| < 1 ∧ tmax * |d| < |2 * f * n|) ∨ (|f - n| < 1 ∧ tmax * |f - n| < |2 * f * n / d + f + n|)) := by
+  simp only [Gen.Frustum.DepthToZExc_persp_3_10, sabs_eq_abs]
+  split_ifs <;> simp_all <;> tauto
+theorem DepthToZExc_ortho_error (tmax n f l r t b d : α) (k : Exc) :
+    Gen.Frustum.DepthToZExc_ortho_3_10 tmax n f l r t b d = .error k ↔
+      k = Exc.domainError ∧ (|f - n| < 1 ∧ tmax * |f - n| < |2 * d + f + n|) := by
+  simp only [Gen.Frustum.DepthToZExc_ortho_3_10, sabs_eq_abs]
+  split_ifs <;> simp_all <;> tauto
 
 /-! ## the integer prologue on the intended domain -/
 theorem wrap64_id (x : Int) (h1 : -9223372036854775808 ≤ x) (h2 : x < 9223372036854775808) : wrap64 x = x := by
